@@ -2,7 +2,8 @@
 \* several polkas per round, any valid-round), rounds 0..3 — reaches lock/unlock corner cases quickly
 CONSTANTS
   NV = 4
-  Power <- MCUnitPower
+  PowerOf <- MCPowerOf
+  PowerTable <- Grow4
   MaxVal = 3
   NValid = 2
   MaxRound = 3
@@ -13,8 +14,8 @@ CONSTANTS
   Corr = {2}
   Byz = {1, 3, 4}
   H0 = 1
-  MaxHeight = 1
-  MsgMaxHeight = 1
+  MaxHeight = 2
+  MsgMaxHeight = 2
   MaxRecv = 1000000
   PropShift = 0
   MaxSteps = 80
